@@ -32,6 +32,12 @@ Apply(s, op) ==
     [] op.o = "shr" -> SubSeq(s, 1, IF Len(s) > op.n THEN Len(s) - op.n ELSE 0)   \* s >> n
     [] op.o = "slice" -> SliceOf(s, op.i, op.j)          \* s[i:j]
 
+(* named deviation of the library, outside the listed properties (RepeatLosesLeadingZeros): s * n for n > 1 is computed *)
+(* on the bare number and loses the leading zero bits of the result (an all-zero result becomes the empty string)       *)
+RECURSIVE StripZeros(_)
+StripZeros(s) == IF s # <<>> /\ Head(s) = 0 THEN StripZeros(Tail(s)) ELSE s
+ApplyLib(s, op) == IF op.o = "repeat" /\ op.n > 1 THEN StripZeros(Rep(s, op.n)) ELSE Apply(s, op)
+
 Ops == [o : {"concat", "rconcat"}, x : Operands] \cup [o : {"repeat"}, n : {1, 2, 3}] \cup [o : {"shl"}, n : {0, 1, 2}]
        \cup [o : {"shr"}, n : {0, 1, 3}] \cup [o : {"slice"}, i : SliceArgs, j : SliceArgs]
 
